@@ -7,6 +7,7 @@ One step from every collector state of a two-channel Steady connection over a *f
 against a complete outcome table; plus a second step after a client exception.
 """
 from iocommon import *
+from ioreplay import Validator, report_io
 
 
 def table(prog, fs, a, b, shapeA, infoA, wpre):
@@ -119,6 +120,8 @@ def body(ctx):
     reports = []
     total_paths = 0
     exc_states = []
+    val = Validator(ctx, prog)
+    nval = ctx.q(6, 40)
     for shape in shapes:
         fs, a, b, infoA, res = explore_step(ctx, ex, prog, shapeA=shape)
         wpre = res[0][1] if res else None
@@ -152,6 +155,9 @@ def body(ctx):
                            sample={'collector_A': shape, 'outcome': label, 'new_frames': [item_desc(prog, i) for i in items]})
             if m is not None:
                 reports.append(('outcome', shape, fs.describe(m), label, s, m, infoA))
+                report_io(ctx, prog, f"wrong-outcome:{label}", f"collector {shape}: frame answered with {label}", s, w, [out], s.pc, cond, [fs], shape=shape, infoA=infoA)
+            elif ctx.rng.random() < nval / 900.0 and len(val.cases) < nval:
+                val.add(s, w, [out], s.pc, [fs], shape=shape, infoA=infoA, label=f"{shape}/{label}")
             # effects
             newmsgs = [(nm, q) for (nm, ch) in all_queues(w) for q in queue_msgs(ch)]
             eff = []
@@ -172,7 +178,9 @@ def body(ctx):
                 m = ctx.decide(f"c07.effects[{shape}#{pi}]={label}", s.pc, z3.And(*eff), group='violations leave no message behind; client exception = Connection.Close(hard error) as last frame, sealed, nothing delivered')
                 if m is not None:
                     reports.append(('effects', shape, fs.describe(m), label, s, m, infoA))
+                    report_io(ctx, prog, f"wrong-effects:{label}", f"collector {shape}: effects of a frame answered with {label}", s, w, [out], s.pc, z3.And(*eff), [fs], shape=shape, infoA=infoA)
     ctx.extra['first_step_paths'] = total_paths
+    val.run()
     # every row of the table must be reachable for some shape (vacuity of the table itself)
     # ---- second step after a client exception: frames are ignored
     f = prog.method('ConnectionState', 'process')
